@@ -207,15 +207,18 @@ package varlink
 //@   ensures [nn C13] result != nil && fresh(result)
 
 //@ func (*Service).RegisterInterface {C13 C16 | safety: C10}
+//@   locks s
 //@   requires [wfS] wfS(s) && iface != nil && !held[s]
-//@   modifies s.names, mapof(s.interfaces), mapof(s.descriptions), gidx, held
+//@   modifies s.names, mapof(s.interfaces), mapof(s.descriptions), gidx, held, gRegRun, gRegCnt
 //@   ensures [unlocked C13 C16] !held[s] && (forall r ref :: r != s ==> held[r] == old(held)[r])
 //@   ghostset at call(append)#1 : gidx = upd(gidx, name, len(res0) - 1)
 //@   ensures [wfS C13] wfS(s)
-//@   ensures [dup C13] old(has(s.interfaces, nameOf(iface))) ==> result != nil && tablesUnchanged(s)
-//@   ensures [running C13] old(s.running) ==> result != nil && tablesUnchanged(s)
-//@   ensures [draining C16] old(s.conncounter) != 0 ==> result != nil && tablesUnchanged(s)
-//@   ensures [ok C13] !old(has(s.interfaces, nameOf(iface))) && !old(s.running) && old(s.conncounter) == 0 ==> result == nil &&
+//@   ghostset at load(running)#1 : gRegRun = res0
+//@   ghostset at load(conncounter)#1 : gRegCnt = res0
+//@   ensures [dup C13] old(has(s.interfaces, nameOf(iface))) ==> result != nil
+//@   ensures [refused C13 C16] result != nil ==> tablesUnchanged(s)
+//@   ensures [quiescent C13 C16] result == nil ==> !old(has(s.interfaces, nameOf(iface))) && !gRegRun && gRegCnt == 0
+//@   ensures [ok C13] result == nil ==>
 //@       len(s.names) == old(len(s.names)) + 1 && s.names[len(s.names) - 1] == nameOf(iface) &&
 //@       (forall i int :: 0 <= i && i < old(len(s.names)) ==> s.names[i] == old(s.names)[i]) &&
 //@       s.interfaces[nameOf(iface)] == iface && s.descriptions[nameOf(iface)] == descOf(iface) &&
@@ -223,29 +226,32 @@ package varlink
 
 //@ func NewService {C13 | safety: C10}
 //@   role init
-//@   modifies gidx, held
+//@   modifies gidx, held, gRegRun, gRegCnt
 //@   ensures [wfS C13] result0 != nil && fresh(result0) && wfS(result0)
 //@   ensures [ident C13] result0.vendor == vendor && result0.product == product && result0.version == version && result0.url == url
-//@   ensures [first C13] result1 == nil && len(result0.names) == 1 && result0.names[0] == "org.varlink.service" && !result0.running
+//@   ensures [first C13] result1 == nil ==> len(result0.names) == 1 && result0.names[0] == "org.varlink.service"
 
 // ---- per-connection loop (C01 C02 C10 C14)
 
 //@ ghost gHandlerErr iface
 
 //@ func (*Service).handleConnection$1 {C10 C14 C15 | safety: C10}
+//@   locks *s
 //@   requires [nn] *s != nil && *wg != nil && !held[*s]
-//@   modifies (*s).conncounter, held, wgDones
-//@   ensures [released C10 C14 C15] (*s).conncounter == old((*s).conncounter) - 1 && wgDones[*wg] == old(wgDones)[*wg] + 1 && !held[*s]
+//@   modifies (*s).conncounter, held, wgDones, gCntIn
+//@   ghostset at load(conncounter)#1 : gCntIn = res0
+//@   ensures [released C10 C14 C15] (*s).conncounter == gCntIn - 1 && wgDones[*wg] == old(wgDones)[*wg] + 1 && !held[*s]
 //@   ensures [frame C10 C14] forall r ref :: r != *s ==> held[r] == old(held)[r]
 
 //@ func (*Service).handleConnection {C01 C02 C10 C14 C15 | safety: C10}
+//@   locks s
 //@   requires [nn] s != nil && conn != nil && wg != nil && dispatchersNonNil(s) && !held[s]
-//@   modifies s.conncounter, held, wgDones, closed, gNewConn, gHandlerErr, dlRpast, dlRzero, dlRctx, helper, gDlFail, gCancelled, gCtxErr, sockOff, bufLo, bufHi, gRdCalls, gSends, gSentVal, gSentErr, wcount, wlastErr, wlastCont, wlastParams, dcount, dlastIface, dlastMethod, dlastResult, gm, gDecErr, gMethod, gOneway
+//@   modifies s.conncounter, held, wgDones, gCntIn, closed, gNewConn, gHandlerErr, dlRpast, dlRzero, dlRctx, helper, gDlFail, gCancelled, gCtxErr, sockOff, bufLo, bufHi, gRdCalls, gSends, gSentVal, gSentErr, wcount, wlastErr, wlastCont, wlastParams, dcount, dlastIface, dlastMethod, dlastResult, gm, gDecErr, gMethod, gOneway
 //@   ghostset at call(NewConn)#1 : gHandlerErr = nil
 //@   ghostset at call(HandleMessage)#1 : gHandlerErr = res0
 //@   ensures [onereader C02] gNewConn == old(gNewConn) + 1
 //@   ensures [closed C10 C14] closed[conn]
-//@   ensures [released C10 C14 C15] s.conncounter == old(s.conncounter) - 1 && wgDones[wg] == old(wgDones)[wg] + 1 && !held[s]
+//@   ensures [released C10 C14 C15] s.conncounter == gCntIn - 1 && wgDones[wg] == old(wgDones)[wg] + 1 && !held[s]
 //@   assert [strip C01 C02 C10] at call(HandleMessage)#1 : err == nil && len(request) >= 1 && request[len(request) - 1] == 0 && arg3 == request[0:len(request) - 1] && arg2 == boxed(ctxConn) && arg0 == s
 //@   assert [reader C02] at call(ReadBytes)#1 : arg0 == ctxConn && arg2 == 0
 //@   assert [close C10] at call(Close)#1 : arg0 == conn
@@ -261,6 +267,10 @@ package varlink
 //@ pred protoOf(a) = a[0:colon(a)]
 //@ pred refusedAddr(a) = colon(a) < 0 || (protoOf(a) != "unix" && protoOf(a) != "tcp") || (protoOf(a) == "unix" && pathOf(a) == "")
 
+//@ ghost gBindRun bool
+//@ ghost gRegRun bool
+//@ ghost gRegCnt int
+//@ ghost gCntIn int
 //@ ghost gRemoved bool
 //@ ghost gAct iface
 
@@ -277,6 +287,7 @@ package varlink
 //@   ensures [refuse C19] refusedAddr(address) <==> result != nil
 
 //@ func (*Service).setListener {C19 C20 | safety: C19}
+//@   locks s
 //@   role server
 //@   requires [nn] s != nil && !held[s] && (s.protocol == "unix" ==> len(s.address) >= 1)
 //@   modifies s.listener, held, gRemoved, gAct, gPidOk, gNfds, gNfdsOk, gNamesSet, gNames, gFd, gFdCalled, gFLErr
@@ -291,15 +302,16 @@ package varlink
 //@   assert [unlink C19] at call(SetUnlinkOnClose)#1 : arg1 == true && s.protocol == "unix" && s.address[0] != 64
 
 //@ func (*Service).Bind {C14 C19 | safety: C19}
+//@   locks s
 //@   role server
 //@   requires [nn] s != nil && !held[s]
-//@   modifies s.protocol, s.address, s.listener, held, gRemoved, gAct, gPidOk, gNfds, gNfdsOk, gNamesSet, gNames, gFd, gFdCalled, gFLErr
-//@   ensures [busy C14] old(s.running) ==> result != nil && s.listener == old(s.listener) && s.protocol == old(s.protocol) && s.address == old(s.address)
-//@   ensures [refuse C19] !old(s.running) && refusedAddr(address) ==> result != nil && s.listener == old(s.listener)
-//@   ensures [ok C14 C19] result == nil ==> s.listener != nil && !old(s.running)
+//@   modifies s.protocol, s.address, s.listener, held, gBindRun, gRemoved, gAct, gPidOk, gNfds, gNfdsOk, gNamesSet, gNames, gFd, gFdCalled, gFLErr
+//@   ghostset at load(running)#1 : gBindRun = res0
+//@   ensures [busy C14] gBindRun ==> result != nil && s.listener == old(s.listener) && s.protocol == old(s.protocol) && s.address == old(s.address)
+//@   ensures [refuse C19] !gBindRun && refusedAddr(address) ==> result != nil && s.listener == old(s.listener)
+//@   ensures [ok C14 C19] result == nil ==> s.listener != nil && !gBindRun
 //@   ensures [fail C19] result != nil ==> s.listener == old(s.listener)
 //@   ensures [unlocked C14 C19] !held[s] && (forall r ref :: r != s ==> held[r] == old(held)[r])
-//@   ensures [running C14] s.running == old(s.running)
 
 //@ func NewConnection {C19 | safety: C19}
 //@   modifies bufLo, bufHi, gNewConn
@@ -372,11 +384,13 @@ package varlink
 //@   ensures [text C15] result == "service timeout"
 
 //@ func (*Service).GetListener {C16 | safety: C10}
+//@   locks s
 //@   requires [nn] s != nil && !held[s]
 //@   modifies held
 //@   ensures [val C14] result0 == s.listener && result1 == nil && !held[s]
 
 //@ func (*Service).Shutdown {C14 C16 | safety: C10}
+//@   locks s
 //@   requires [nn] s != nil && !held[s]
 //@   modifies s.running, held, closed
 //@   ensures [stopped C14] !s.running
@@ -385,6 +399,7 @@ package varlink
 //@   ensures [keeps C14] s.listener == old(s.listener)
 
 //@ func (*Service).teardown {C14 C15 C16 | safety: C10}
+//@   locks s
 //@   role server
 //@   requires [nn] s != nil && !held[s]
 //@   modifies s.listener, s.running, s.protocol, s.address, held, closed
@@ -401,6 +416,7 @@ package varlink
 //@   ensures [calls C15] gSetDl == old(gSetDl) || gSetDl == old(gSetDl) + 1
 
 //@ func (*Service).isRunning {C14 C16 | safety: C10}
+//@   locks s
 //@   requires [nn] s != nil && !held[s]
 //@   modifies held
 //@   ensures [val C14] result == s.running
@@ -409,6 +425,7 @@ package varlink
 //@ pred resetS(s) = s.listener == nil && !s.running && s.protocol == "" && s.address == ""
 
 //@ func (*Service).Listen$1 {C14 C15 C16 | safety: C10}
+//@   locks *s
 //@   role server
 //@   requires [nn] *s != nil && wg != nil && !held[*s]
 //@   modifies (*s).listener, (*s).running, (*s).protocol, (*s).address, held, closed, wgWaited
@@ -418,6 +435,7 @@ package varlink
 //@   assert [order C14] at call(Wait)#1 : (*s).listener == nil && arg0 == wg
 
 //@ func (*Service).DoListen$1 {C14 C15 C16 | safety: C10}
+//@   locks *s
 //@   role server
 //@   requires [nn] *s != nil && wg != nil && !held[*s]
 //@   modifies (*s).listener, (*s).running, (*s).protocol, (*s).address, held, closed, wgWaited
@@ -427,14 +445,15 @@ package varlink
 //@   assert [order C14] at call(Wait)#1 : (*s).listener == nil && arg0 == wg
 
 //@ func (*Service).Listen {C14 C15 C16 | safety: C10}
+//@   locks s
 //@   role server
 //@   requires [nn] s != nil && !held[s] && dispatchersNonNil(s)
-//@   modifies s.protocol, s.address, s.listener, s.running, s.conncounter, held, closed, wgAdds, wgWaited, gDlOk, gSetDl, gAccErr, gAccTimeout, gRunSeen, gCntSeen, gCnt, gAdds, gBound, gRemoved, gAct, gPidOk, gNfds, gNfdsOk, gNamesSet, gNames, gFd, gFdCalled, gFLErr
+//@   modifies s.protocol, s.address, s.listener, s.running, s.conncounter, held, closed, wgAdds, wgWaited, gDlOk, gSetDl, gAccErr, gAccTimeout, gRunSeen, gCntSeen, gCnt, gAdds, gBound, gBindRun, gRemoved, gAct, gPidOk, gNfds, gNfdsOk, gNamesSet, gNames, gFd, gFdCalled, gFLErr
 //@   ghostset at defer(Listen$1)#1 : gBound = nil
 //@   ghostset at defer(Listen$1)#1 : gAccErr = nil
 //@   ghostset at load(listener)#1 : gBound = res0
 //@   ghostset at call(Accept)#1 : gAccErr = res1
-//@   ghostset at call(Accept)#1 : gCnt = s.conncounter
+//@   ghostset at load(conncounter)#2 : gCnt = res0
 //@   ghostset at call(Accept)#1 : gAdds = wgAdds[addr_wg]
 //@   ghostset at call(Timeout)#1 : gAccTimeout = res0
 //@   ghostset at load(conncounter)#1 : gCntSeen = res0
@@ -451,6 +470,7 @@ package varlink
 //@   loop 1 decreases *
 
 //@ func (*Service).DoListen {C14 C15 C16 | safety: C10}
+//@   locks s
 //@   role server
 //@   requires [nn] s != nil && !held[s] && dispatchersNonNil(s)
 //@   modifies s.protocol, s.address, s.listener, s.running, s.conncounter, held, closed, wgAdds, wgWaited, gDlOk, gSetDl, gAccErr, gAccTimeout, gRunSeen, gCntSeen, gCnt, gAdds, gBound
@@ -458,7 +478,7 @@ package varlink
 //@   ghostset at defer(DoListen$1)#1 : gAccErr = nil
 //@   ghostset at load(listener)#1 : gBound = res0
 //@   ghostset at call(Accept)#1 : gAccErr = res1
-//@   ghostset at call(Accept)#1 : gCnt = s.conncounter
+//@   ghostset at load(conncounter)#2 : gCnt = res0
 //@   ghostset at call(Accept)#1 : gAdds = wgAdds[addr_wg]
 //@   ghostset at call(Timeout)#1 : gAccTimeout = res0
 //@   ghostset at load(conncounter)#1 : gCntSeen = res0
